@@ -1,23 +1,27 @@
 #[cfg(not(may_verif))]
-use std::sync::atomic::{AtomicUsize, Ordering};
+use std::sync::atomic::{AtomicU64, Ordering};
 #[cfg(may_verif)]
-use crate::verif::atomic::AtomicUsize;
+use crate::verif::atomic::AtomicU64;
 #[cfg(may_verif)]
 use std::sync::atomic::Ordering;
 use std::time::Duration;
 
-// atomic duration in milli seconds
+// atomic duration in nano seconds, 0 is none
 #[derive(Debug)]
-pub struct AtomicDuration(AtomicUsize);
+pub struct AtomicDuration(AtomicU64);
+
+// a zero or sub-nanosecond timeout is still a timeout, not "wait forever"
+#[inline]
+fn to_nanos(dur: Option<Duration>) -> u64 {
+    match dur {
+        None => 0,
+        Some(d) => u64::try_from(d.as_nanos()).unwrap_or(u64::MAX).max(1),
+    }
+}
 
 impl AtomicDuration {
     pub fn new(dur: Option<Duration>) -> Self {
-        let dur = match dur {
-            None => 0,
-            Some(d) => d.as_millis() as usize,
-        };
-
-        AtomicDuration(AtomicUsize::new(dur))
+        AtomicDuration(AtomicU64::new(to_nanos(dur)))
     }
 
     #[inline]
@@ -25,25 +29,20 @@ impl AtomicDuration {
     pub fn get(&self) -> Option<Duration> {
         match self.0.load(Ordering::Relaxed) {
             0 => None,
-            d => Some(Duration::from_millis(d as u64)),
+            d => Some(Duration::from_nanos(d)),
         }
     }
 
     #[inline]
     pub fn store(&self, dur: Option<Duration>) {
-        let timeout = match dur {
-            None => 0,
-            Some(d) => d.as_millis() as usize,
-        };
-
-        self.0.store(timeout, Ordering::Relaxed);
+        self.0.store(to_nanos(dur), Ordering::Relaxed);
     }
 
     #[inline]
     pub fn take(&self) -> Option<Duration> {
         match self.0.swap(0, Ordering::Relaxed) {
             0 => None,
-            d => Some(Duration::from_millis(d as u64)),
+            d => Some(Duration::from_nanos(d)),
         }
     }
 }
